@@ -93,7 +93,7 @@ func (rep *Report) nativePhase() error {
 		}
 		add := func(r *HarnessRun, p PathResult, kind, label string, model map[string]uint64) {
 			id := len(cases)
-			cases = append(cases, nativeCase{ID: id, Harness: r.Spec.Name, Inputs: model, Chooses: p.Chooses, Params: r.Params, Kind: kind})
+			cases = append(cases, nativeCase{ID: id, Harness: r.Spec.Name, Inputs: model, Chooses: p.Chooses, Params: r.Params, Kind: kind, Sched: p.Sched})
 			refs[id] = &caseRef{run: r, path: p, kind: kind, label: label, model: model}
 		}
 		for _, r := range runs {
@@ -119,8 +119,8 @@ func (rep *Report) nativePhase() error {
 				}
 			}
 			for i := off; i < len(w) && r.WitnessTried < nWit; i += step {
-				if w[i].Threads > 1 {
-					continue // schedules cannot be forced natively
+				if w[i].Threads > 1 && len(rep.Spec.Sched) == 0 {
+					continue // schedules cannot be forced natively without the sched rewrite
 				}
 				add(r, w[i], "witness", "", w[i].Model)
 				r.WitnessTried++
@@ -148,7 +148,7 @@ func (rep *Report) nativePhase() error {
 		if len(cases) == 0 {
 			continue
 		}
-		results, log, err := runNative(rep.Repo, rep.Verif, pkg, runs[0].PkgName, fileList, rep.Spec.Clock, cases, "")
+		results, log, err := runNative(rep.Repo, rep.Verif, pkg, runs[0].PkgName, fileList, rep.rewriteFn(pkg), cases, "")
 		rep.NativeLog += log
 		if err != nil {
 			return err
@@ -206,8 +206,8 @@ func (rep *Report) nativePhase() error {
 				dir := filepath.Join(rep.Verif, "replays", rep.Spec.Property, fmt.Sprintf("%s-%d", r.Spec.Name, len(seen)))
 				os.RemoveAll(dir)
 				lab, m := violationLabel(&cv.Path)
-				c := []nativeCase{{ID: 0, Harness: r.Spec.Name, Inputs: m, Chooses: cv.Path.Chooses, Params: r.Params, Kind: "violation"}}
-				runNative(rep.Repo, rep.Verif, pkg, r.PkgName, fileList, rep.Spec.Clock, c, dir)
+				c := []nativeCase{{ID: 0, Harness: r.Spec.Name, Inputs: m, Chooses: cv.Path.Chooses, Params: r.Params, Kind: "violation", Sched: cv.Path.Sched}}
+				runNative(rep.Repo, rep.Verif, pkg, r.PkgName, fileList, rep.rewriteFn(pkg), c, dir)
 				mj, _ := json.MarshalIndent(map[string]interface{}{"property": rep.Spec.Property, "harness": r.Spec.Name, "tier": rep.Tier, "expected_label": lab, "engine_outcome": cv.Path.Outcome, "engine_msg": cv.Path.Msg, "inputs": m, "decisions": cv.Path.Decisions, "chooses": cv.Path.Chooses, "params": r.Params, "native": cv.Native}, "", " ")
 				os.WriteFile(filepath.Join(dir, "model.json"), mj, 0o644)
 				cv.Replay = dir
@@ -215,6 +215,20 @@ func (rep *Report) nativePhase() error {
 		}
 	}
 	return nil
+}
+
+// rewriteFn builds the clock/schedule overlay; typed ASTs are consumed, so the packages are reloaded for each use.
+func (rep *Report) rewriteFn(curPkg string) func(string, map[string]string) error {
+	if len(rep.Spec.Clock) == 0 && len(rep.Spec.Sched) == 0 {
+		return nil
+	}
+	return func(scratch string, replace map[string]string) error {
+		ld, err := loadProgram(rep.Repo, rep.Verif, rep.Spec, true)
+		if err != nil {
+			return err
+		}
+		return buildRewriteOverlay(ld.byDir, rep.Repo, rep.Spec.Clock, rep.Spec.Sched, scratch, replace, curPkg)
+	}
 }
 
 func compareWitness(p *PathResult, n *nativeResult) string {
